@@ -69,6 +69,16 @@ TStep ==
               (IF K1Applies(tr, i) /\ tr.got[i] # Expected(tr, i)
                THEN TrKnown(tr, "C12_K1_nonstandard_calendar")
                ELSE Chk(tr, i, "decoded instant " \o ToString(i) \o " (" \o tr.kind \o ")", tr.got[i], Expected(tr, i)))
+       \* CF cell bounds (time_bounds with the units of time and no calendar of its
+       \* own): the lower edges are the instants of the time variable, decoded in
+       \* the calendar of the time variable; the last upper edge is one unit later
+       /\ ChkT(tr, 1, "getTimes(bounds=True) on a CF file raised: " \o tr.cfbounds.exc, tr.cfbounds.exc = "")
+       /\ (tr.kind = "cf" /\ tr.cfbounds.h) =>
+             /\ ChkT(tr, 1, "CF time bounds: number of edges", Len(tr.cfbounds.got) = NExpected(tr) + 1)
+             /\ \A i \in 1..NExpected(tr) :
+                  (Showable(Expected(tr, i)) /\ ~K1Applies(tr, i) /\ tr.got[i] = Expected(tr, i)) =>
+                    Chk(tr, i, "CF time bounds: lower edge " \o ToString(i) \o " is not the instant of the time variable",
+                        tr.cfbounds.got[i], Expected(tr, i))
        \* the numpy form (datetype = datetime64): the same instants, in UTC
        /\ (~NonStdCal(tr) => ChkT(tr, 1, "getTimes(datetype=datetime64) raised on a file whose getTimes() returned: " \o tr.dt64.exc, tr.dt64.exc = ""))
        /\ ((tr.dt64.h /\ ~NonStdCal(tr)) =>
